@@ -65,6 +65,11 @@ fn powf_classes() -> Vec<(&'static str, Box<dyn Fn(&mut Rng, bool) -> f64>)> {
         ("large", Box::new(|r, _| r.sign() * r.logu(50.0, 300.0))),
         ("tiny", Box::new(|r, f| r.sign() * if f { r.logu(1e-30, 1e-10) } else { r.logu(1e-300, 1e-10) })),
         ("random", Box::new(|r, _| r.sign() * r.logu(0.01, 20.0))),
+        // integer-valued exponents far beyond the i32 range (every float >= 2^52 is integer-valued)
+        ("huge-integer-valued", Box::new(|r, f| {
+            let p: f64 = *r.choose(&[2147483648.0, 2147483653.0, -2147483655.0, 4294967296.0, 1099511627777.0, -8796093022208.0, 4503599627370496.0, 1e15, 9.007199254740992e15, 1e18]);
+            r.sign() * if f { p.abs().min(8.0e9) } else { p.abs() }
+        })),
     ]
 }
 
@@ -252,7 +257,19 @@ fn check_type<T: Jetty>(tname: &str, ctx: &Ctx, shard: usize, nshards: usize, ti
                 }
             }
             let style = (rep as usize) % STYLES.len();
-            let slots = gen_slots(&mut rng, &b, x0, style, T::IS_F32);
+            let mut slots = gen_slots(&mut rng, &b, x0, style, T::IS_F32);
+            if *cname == "huge-integer-valued" {
+                // base 1 or a floating-point neighbour of 1 with |n ln x| <= ~8; tiny parts so that
+                // n^k * parts^k stays inside the float range
+                let ulp = if T::IS_F32 { f32::EPSILON as f64 } else { f64::EPSILON };
+                let kmax = (8.0 / (p.abs() * ulp)).floor().min(4.0);
+                x0 = 1.0 + ulp * (rng.int(-(kmax as i64), kmax as i64) as f64);
+                slots[0] = x0;
+                let lim = if T::IS_F32 { 1e-3 } else { 1.0 } / p.abs();
+                for v in slots.iter_mut().skip(1) {
+                    *v = if T::IS_F32 { ((*v) * lim) as f32 as f64 } else { (*v) * lim };
+                }
+            }
             let mask = rng.next_u64();
             let x: T = build_with(&shape, &slots, &mut MaskAbsent::new(mask));
             let pf = f_of::<T>(p);
@@ -363,7 +380,7 @@ fn main() {
     extra.insert("exponent_classes_observed".into(), json!(classes));
     extra.insert("overflow_checks".into(), json!(cfg!(debug_assertions)));
     extra.insert("K".into(), json!(K));
-    let required = vec![(format!("all exponent classes observed (seen {})", classes.len()), classes.len() >= 23)];
+    let required = vec![(format!("all exponent classes observed (seen {})", classes.len()), classes.len() >= 24)];
     ctx.finish(
         acc,
         "class = (power function, type, exponent class, base sign / exponent sign or part style, presence pattern); every class is non-trivial (operands carry independent non-unit parts). Exponent classes: powi: every n in [-64,64], 0..3, +-2^k and +-(2^k+-1) up to 2^30, the i32 overflow frontiers 1288..1296 and 46338..46346, log-uniform up to 2^30 (2^14 for f32); powf: +-0, 1/2/3/4 and +-3 ulp neighbours, negative, fractions, +-50..300, tiny, random; powd: dual exponents with zero / one / two / negative / fractional / random real part and arbitrary parts. Bases keep |n ln|x|| <= 40 (10 for f32), negative bases for integer exponents.",
